@@ -1073,6 +1073,8 @@ def _string_pieces(fn_node) -> List[ast.AST]:
             out.append(n.value)
         elif isinstance(n, ast.Return) and n.value is not None:
             out.append(n.value)
+        elif isinstance(n, ast.Call) and isinstance(n.func, ast.Attribute) and n.func.attr in ("append", "extend", "write"):
+            out.extend(n.args)          # parts.append(piece) / buf.write(piece)
     pieces = []
     for v in out:
         for x in ast.walk(v):
@@ -1281,7 +1283,10 @@ def r2(ctx):
 
     # ---- formatter: comment lines (text following a newline inside one emitted piece) and inline originals
     n_comment = 0
-    for g in (tf, fv):
+    tfns = class_methods_reachable(repo, tf)           # to_human_string and the helpers it splits its text into
+    if fv not in tfns:
+        tfns.append(fv)
+    for g in tfns:
         for piece in _string_pieces(g.node):
             text = _render(piece, {}, "1")
             if text is None or "\n" not in text:
@@ -1481,10 +1486,10 @@ def r2(ctx):
     ctx.require(len(name_pats) == 1, "C11.R2: block-name pattern in the parser's block-header branch not found")
     blk_re = name_pats[0]
     hdrs = []
-    for js in _string_pieces(tf.node):
+    for js in [x for g_ in tfns if g_ is not fv for x in _string_pieces(g_.node)]:
         if isinstance(js, ast.JoinedStr) and len(js.values) > 1 and isinstance(js.values[0], ast.Constant) and \
                 isinstance(js.values[1], ast.FormattedValue) and _render(js, {}, "").endswith("\n") and \
-                not _render(js, {}, "").startswith("\n"):
+                not _render(js, {}, "").startswith("\n") and not comment_re.apply(_render(js, {}, "Blk").split("\n")[0].strip()):
             hdrs.append(js)
     ctx.floor("C11.R2", "block header line shapes emitted", len(hdrs), 1)
     tbind = cg.bindings(tf)
@@ -1520,7 +1525,7 @@ def r2(ctx):
     ctx.require(len(member_tests) == 1, "C11.R2: parser's flag-name membership test not found")
     enum_parsed = (ap(member_tests[0].comparators[0]) or "").rsplit(".", 1)[0]
     flag_pieces = []
-    for js in _string_pieces(tf.node):
+    for js in [x for g_ in tfns if g_ is not fv for x in _string_pieces(g_.node)]:
         if isinstance(js, ast.JoinedStr) and len(js.values) == 3 and isinstance(js.values[0], ast.Constant) and \
                 isinstance(js.values[2], ast.Constant) and "\n" not in str(js.values[0].value) + str(js.values[2].value) \
                 and str(js.values[0].value).startswith(sep) and str(js.values[0].value).strip():
@@ -1928,6 +1933,17 @@ def r4(ctx):
                                 call_attr(val) in ("partition", "rpartition", "split", "rsplit", "splitlines", "list", "tuple"):
                             raw.add(nm)
                             changed = True
+        if g is sf:
+            # adjacent-literal concatenation: whatever is joined (by newlines) between the parentheses must be one
+            # string/bytes literal per piece - only repr()/ascii() guarantee that
+            for n in walk(g.node, into_defs=True):
+                if isinstance(n, ast.Call) and isinstance(n.func, ast.Attribute) and n.func.attr == "join" and n.args and \
+                        isinstance(n.args[0], (ast.GeneratorExp, ast.ListComp)):
+                    elt = n.args[0].elt
+                    okp = isinstance(elt, ast.Call) and isinstance(elt.func, ast.Name) and elt.func.id in ("repr", "ascii")
+                    ctx.ob("C11.R4", f"{g.qual}: every piece joined into the parenthesised literal group is rendered by repr()",
+                           okp, ctx.w(g, n), f"pieces are rendered by `{norm(elt)}`: a renderer that may itself emit a "
+                           f"parenthesised or multi-line group breaks implicit literal concatenation (the text no longer parses)")
         rets = [n for n in walk(g.node) if isinstance(n, ast.Return) and n.value is not None]
         ctx.require(bool(rets), f"C11.R4: {g.qual} has no return")
         for r in rets:
@@ -2094,10 +2110,18 @@ def r7(ctx):
                     any(isinstance(a, (ast.Lambda,)) or (isinstance(a, ast.Call) and call_attr(a) in ("sort", "sorted", "filter"))
                         for a in ancestors(c)):
                 t = c.args[1]
-                if isinstance(t, ast.Name):
-                    b = [st.value for st in stores(g_.node, into_defs=True) if st.path == t.id and st.value is not None]
-                    t = b[-1] if b else t
-                for e in (t.elts if isinstance(t, ast.Tuple) else [t]):
+                for _ in range(3):
+                    if isinstance(t, ast.Name):
+                        b = [st.value for st in stores(g_.node, into_defs=True) if st.path == t.id and st.value is not None]
+                        nxt = b[-1] if b else repo.module_assign(g_.module, t.id)
+                    elif isinstance(t, ast.Attribute):
+                        nxt = _static_value(repo, g_, t)
+                    else:
+                        break
+                    if nxt is None:
+                        break
+                    t = nxt
+                for e in (t.elts if isinstance(t, (ast.Tuple, ast.List)) else [t]):
                     standalone.add((ap(e) or "").split(".")[-1])
     # the order established by the sort must survive the drain: forward iteration / pop(0) / popleft, not pop() from the end
     for g_ in _parser_fns(repo, cg_, pf):
@@ -2308,7 +2332,98 @@ def r10(ctx):
     ctx.floor("C11.R10", "symmetric optional early-outs", n, 1)
 
 
+def r11(ctx):
+    """Block multiplicity: the text is built from an outer loop over the message's block lists and an inner loop over the
+    blocks of each list.  Only the inner loop writes text, an empty list (a Variable block with count 0) leaves no trace,
+    and the parser cannot give it back: something must be written per block *list*, outside the per-block loop."""
+    repo = ctx.repo
+    ctx.rule("C11.R11", "every block list of the message leaves a trace in the text (the loop over msg.blocks writes "
+                        "something outside the per-block inner loop), so a zero-count Variable block survives")
+    tf = repo.fn("HumanMessageSerializer.to_human_string")
+    found = 0
+    for g in class_methods_reachable(repo, tf):
+        for outer in [n for n in walk(g.node, into_defs=False) if isinstance(n, ast.For)]:
+            it = outer.iter
+            if not (isinstance(it, ast.Call) and call_attr(it) == "items" and isinstance(it.func, ast.Attribute)
+                    and (ap(it.func.value) or "").endswith(".blocks")):
+                continue
+            found += 1
+            tnames = {x.id for x in ast.walk(outer.target) if isinstance(x, ast.Name)}
+            inner = [n for n in walk(outer, into_defs=False) if isinstance(n, ast.For) and n is not outer
+                     and {x.id for x in ast.walk(n.iter) if isinstance(x, ast.Name)} & tnames]
+
+            def in_inner(n):
+                return any(a in inner for a in ancestors(n)) or n in inner
+
+            def list_guarded(n):
+                # written only when the list is non-empty: `if block_list:` / `if len(block_list)` around it
+                for e, pol in facts(n, g.node):
+                    if pol and {x.id for x in ast.walk(e) if isinstance(x, ast.Name)} & tnames and not isinstance(e, ast.Compare):
+                        return True
+                return False
+            writes = []
+            for n in walk(outer, into_defs=False):
+                if n is outer or in_inner(n):
+                    continue
+                if isinstance(n, ast.AugAssign) and isinstance(n.op, ast.Add) and not list_guarded(n):
+                    writes.append(n)
+                elif isinstance(n, ast.Expr) and isinstance(n.value, ast.Call) and isinstance(n.value.func, ast.Attribute) \
+                        and n.value.func.attr in ("append", "extend", "write") and not list_guarded(n):
+                    writes.append(n)
+            ctx.ob("C11.R11", "to_human_string: every block list of the message leaves a trace in the text", bool(writes) and bool(inner),
+                   ctx.w(g, outer),
+                   "text is written only inside the per-block loop: an empty block list (zero-count Variable block) prints "
+                   "nothing, from_human_string never recreates it and the datagram differs or cannot be encoded")
+    ctx.floor("C11.R11", "loops over msg.blocks.items() in the formatter", found, 1)
+
+
+def r12(ctx):
+    """Coordinates typed as text (`<x, y, z, w>`) reach the wire through the data packer's coordinate factories as plain
+    tuples: the factories' structural clauses (C12.R1: .data() type flow, components handed over unchanged) are C11 clauses
+    as well."""
+    from ..engine import RenamedCtx
+    from . import c12
+    c12.r1_factories(RenamedCtx(ctx, {"C12.R1": "C11.R12"}))
+    ctx.rule("C11.R12", "coordinate packers hand the components of a parsed `<...>` value over unchanged and treat the result "
+                        "of TupleCoord.data() as a tuple (re-runs the factory clauses of C12.R1)")
+
+
+def r13(ctx):
+    """Text variables that are not valid UTF-8 must fail to decode (the formatter then falls back to the exact bytes
+    form): a decoder with errors='replace'/'ignore' silently changes the bytes."""
+    repo = ctx.repo
+    ctx.rule("C11.R13", "text decoders/encoders of the wire codecs are strict (no errors='replace'/'ignore'): undecodable bytes "
+                        "must surface so that the exact bytes form is printed")
+    LOSSY = {"replace", "ignore", "backslashreplace", "xmlcharrefreplace", "namereplace"}
+    scope = [m for m in repo.modules.values() if m.rel in ("hippolyzer/lib/base/serialization.py", "hippolyzer/lib/base/templates.py")
+             or m.rel.startswith("hippolyzer/lib/base/message/")]
+    n = 0
+    for m in scope:
+        for c in calls(m.tree, into_defs=True):
+            if not (isinstance(c.func, ast.Attribute) and c.func.attr in ("decode", "encode") or ap(c.func) in ("str", "bytes")):
+                continue
+            err = next((k.value for k in c.keywords if k.arg == "errors"), None)
+            if err is None and isinstance(c.func, ast.Attribute) and len(c.args) >= 2 and isinstance(c.args[1], ast.Constant) \
+                    and isinstance(c.args[1].value, str):
+                err = c.args[1]
+            if err is None and ap(c.func) in ("str", "bytes") and len(c.args) >= 3:
+                err = c.args[2]
+            n += 1
+            if err is None:
+                continue
+            v = ConstEval(repo, m).ev(err)
+            owner = next((a.name for a in ancestors(c) if isinstance(a, FUNC_TYPES)), "<module>")
+            ctx.ob("C11.R13", f"{m.rel}:{owner}: `{norm(c.func)}(..., errors={norm(err)})` is a strict codec", not (isinstance(v, str) and v in LOSSY),
+                   ctx.w(m, c), f"errors={v!r} substitutes undecodable bytes: the value decodes 'successfully' to different text, "
+                   f"is printed as a str literal and re-encodes to other bytes")
+    ctx.floor("C11.R13", "decode/encode sites in the wire codec modules", n, 5)
+    ctx.ob("C11.R13", "wire codec modules: no lossy error handler on any decode/encode", True, "hippolyzer/lib/base/serialization.py")
+
+
 def run(ctx):
+    r13(ctx)
+    r12(ctx)
+    r11(ctx)
     r10(ctx)
     r9(ctx)
     r8(ctx)
